@@ -50,7 +50,9 @@ def config(draw, kmax=4):
         h["romio_no_indep_rw"] = "true"
     if G.chance(draw, 45):
         h["nc_num_aggrs_per_node"] = str(draw(st.integers(0, k)))
-    return {"k": k, "hints": h, "via_env": G.chance(draw, 30), "safe": G.chance(draw, 25), "dseed": draw(st.integers(0, 10 ** 6))}
+    # who posts the nonblocking writes: every rank its part (None) or one rank all of them (the others reach the wait empty-handed)
+    owner = draw(st.sampled_from([None, None, 0, 0, k - 1, draw(st.integers(0, k - 1))]))
+    return {"k": k, "hints": h, "via_env": G.chance(draw, 30), "safe": G.chance(draw, 25), "dseed": draw(st.integers(0, 10 ** 6)), "iput_owner": owner}
 
 
 @st.composite
@@ -71,9 +73,11 @@ def case_strategy(draw, tier="quick"):
     numrecs = 0
     steps = []
     nsteps = draw(st.integers(4, 10))
-    written = [None] * len(vars_)
+    burst = 0
     for _ in range(nsteps):
-        kind = draw(st.sampled_from(["write", "write", "write", "iwrite", "read", "read", "att", "redef", "reopen"]))
+        kind = "iwrite" if burst > 0 else draw(st.sampled_from(["write", "write", "write", "iwrite", "iwrite", "read", "read", "att", "redef", "reopen"]))
+        if kind == "iwrite":
+            burst = burst - 1 if burst > 0 else draw(st.integers(0, 3))      # several requests pending for the same wait
         if kind == "att":
             steps.append({"op": "att", "name": "a%d" % len(steps), "n": draw(st.integers(1, 6)), "seed": draw(st.integers(0, 99))})
             continue
@@ -253,8 +257,13 @@ def build(case, cfg):
             sn = p.s.same_n() if (op == "write" and not indep) else None
             nview = fm.numrecs
             stmts, todo = [], []
+            owner = cfg.get("iput_owner") if op == "iwrite" else None
+            if owner is not None:
+                out["solo_iput"] = out.get("solo_iput", 0) + 1
             for r in range(k):
-                rq = mkreq(stp, parts[r], vi, v)
+                if owner is not None and r != owner:
+                    continue
+                rq = mkreq(stp, parts[r] if owner is None else stp["box"], vi, v)
                 idx = req_geometry(fm, rq, nview)[0]
                 vals = part_values(stp, idx, fm, vi, rq, v["vclass"])
                 if op == "iwrite":
@@ -434,6 +443,9 @@ def run_case(ctx, case):
                 labels.add("%s=%s" % (h, val if h != "nc_num_aggrs_per_node" else ("0" if val == "0" else "all" if int(val) == c_["k"] else "some")))
         if c_["via_env"] and c_["hints"]:
             labels.add("via_PNETCDF_HINTS")
+    for nm in ("A", "B"):
+        if nm in runs and runs[nm][1].get("solo_iput", 0) >= 2 and case[nm]["k"] > 1:
+            labels.add("several_iputs_pending_on_one_rank_only")
     if A["k"] != B["k"]:
         labels.add("k_differs")
     if A["safe"] != B["safe"]:
